@@ -513,6 +513,19 @@ def discharge(prog, iv, site):
         ls = str(_static_len(s0, 0, f)) if _static_len(s0, 0, f) is not None else _slice_len_expr(s)
         if ld is not None and ld == ls:
             return "both slices have length %s" % ld
+        # dst = buf.split_at_mut(src.len()).0 (or buf[..src.len()]): as long as the source
+        for x_, y_ in ((d, s), (s, d)):
+            n_ = None
+            if x_[0] == "field" and x_[2] == "0":
+                c_ = strip(x_[1])
+                if c_[0] == "call" and (c_[1].endswith("::split_at") or c_[1].endswith("::split_at_mut")) and len(c_[2]) == 2:
+                    n_ = strip(c_[2][1])
+            else:
+                so_ = slice_of(x_)
+                if so_ is not None and so_[1] == "to":
+                    n_ = strip(so_[3])
+            if n_ is not None and n_[0] == "call" and n_[1].endswith("::len") and tree_str(strip_deep(n_[2][0])) == tree_str(strip_deep(y_)):
+                return "one slice is cut to the length of the other"
         return None
     if kind == "clamp-order":
         return None
